@@ -139,6 +139,7 @@ def parse_unit(path):
                 u.labels[m.group(1)] = dict(props=m.group(2).split(","), desc=m.group(3))
             elif w[0] == "canary":
                 u.canary = w[1]
+                u.canaries = getattr(u, "canaries", []) + w[1:]
             elif w[0] == "desugar_enumerate":
                 u.desugar = getattr(u, "desugar", []) + [(w[1], int(w[2]))]
             elif w[0] == "mut_self":
@@ -400,6 +401,110 @@ def _mut_self(text, rules):
     rules.append("R5 mut self -> let mut this = self (self. -> this.)")
     return text
 
+
+def _continue_to_else(text, rules):
+    """R8: Verus `for` loops reject `continue`.  Inside a `for` body,
+           if C { X; continue; } REST        (the `if` has no else)
+       is rewritten to
+           if C { X; } else { REST }
+       where REST is the remainder of the block that contains the `if`.  Valid, and only applied, when that containing
+       block is in TAIL POSITION of the loop body: it is the loop body itself, or the block of an else-less `if`/`if let`
+       that is the last statement of a block in tail position (so nothing else would run in this iteration).  Any other
+       shape is left alone (Verus then rejects it: exit 2, never a verdict).  while/loop bodies are not touched."""
+    changed = True
+    n_done = 0
+    while changed:
+        changed = False
+        parts = _fn_parts(text)
+        toks = parts["toks"]
+        if parts["open"] is None:
+            return text
+        for (kw, bo) in _loops_in(text, toks, parts["open"] + 1, parts["close"]):
+            if toks[kw][1] != "for":
+                continue
+            bc = rsx.match_close(toks, bo)
+            edit = _find_tail_continue(toks, bo, bc)
+            if edit is None:
+                continue
+            cont, semi, ifclose, blkclose = edit
+            text = (text[:toks[cont][2]] + text[toks[semi][3]:toks[ifclose][3]] + " else {" +
+                    text[toks[ifclose][3]:toks[blkclose][2]] + "}" + text[toks[blkclose][2]:])
+            n_done += 1
+            changed = True
+            break
+    if n_done:
+        rules.append("R8 `if C { ..; continue; } REST` -> `if C { .. } else { REST }` in a for body (%d time(s))" % n_done)
+    return text
+
+
+def _stmts(toks, bo, bc):
+    """top-level statements of block (bo, bc): list of (first_tok, last_tok)."""
+    out = []
+    j = bo + 1
+    start = j
+    while j < bc:
+        t = toks[j]
+        if t[1] in ("(", "[", "{"):
+            cl = rsx.match_close(toks, j)
+            if t[1] == "{":
+                # a block ends a statement unless followed by else / method chain / operator
+                nxt = toks[cl + 1][1] if cl + 1 < bc else None
+                if nxt not in ("else", ".", "?", ";", ",") and not (nxt in ("=", "==")):
+                    out.append((start, cl))
+                    start = cl + 1
+            j = cl + 1
+            continue
+        if t[1] == ";":
+            out.append((start, j))
+            start = j + 1
+        j += 1
+    if start < bc:
+        out.append((start, bc - 1))
+    return out
+
+
+def _if_block(toks, a, b):
+    """statement (a,b) is `if COND {BLOCK}` / `if let P = E {BLOCK}` without else -> (open, close) of BLOCK else None.
+    The block is the top-level brace group that ENDS the statement (a struct pattern like `Applied { .. }` in an
+    `if let` also has braces); a top-level `else` anywhere in the statement disqualifies it."""
+    if toks[a][1] != "if":
+        return None
+    j = a + 1
+    last = None
+    while j <= b:
+        if toks[j][1] in ("(", "[", "{"):
+            cl = rsx.match_close(toks, j)
+            if toks[j][1] == "{":
+                last = (j, cl)
+            j = cl + 1
+            continue
+        if toks[j][1] == "else":
+            return None
+        j += 1
+    if last is not None and last[1] == b:
+        return last
+    return None
+
+
+def _find_tail_continue(toks, bo, bc):
+    """Search block (bo,bc), which is in tail position, for `if .. { ..; continue; }` (else-less) as a statement; descend
+    into the LAST statement if it is an else-less if-block.  Returns (continue_tok, semicolon_tok, if_close, block_close)."""
+    st = _stmts(toks, bo, bc)
+    for (a, b) in st:
+        ib = _if_block(toks, a, b)
+        if ib is None:
+            continue
+        inner = _stmts(toks, ib[0], ib[1])
+        if inner:
+            la, lb = inner[-1]
+            if lb - la == 1 and toks[la][1] == "continue" and toks[lb][1] == ";":
+                return (la, lb, ib[1], bc)
+    if st:
+        ib = _if_block(toks, st[-1][0], st[-1][1])
+        if ib is not None:
+            return _find_tail_continue(toks, ib[0], ib[1])
+    return None
+
 class Emitter:
     def __init__(self):
         self.lines = []
@@ -526,6 +631,8 @@ def transform_fn(u, fnkey, text, em, meta, is_trait_impl=False, nested=False, st
                                                                                     cnt))
         plain = plain.replace(rp["old"], rp["new"])
         rules.append("%s `%s` -> `%s`" % (rp["rule"], rp["old"], rp["new"]))
+    if not os.environ.get("VERIF_NO_R8"):
+        plain = _continue_to_else(plain, rules)
     if fnkey in getattr(u, "mut_self", []):
         plain = _mut_self(plain, rules)
     for (fk, k) in getattr(u, "desugar", []):
@@ -698,7 +805,38 @@ def selfcheck_tokens(src_text, stageA, fnkey, rules):
     return diff
 
 
-def build(unit_path, out_dir, canary=False, repo=REPO):
+def _inject_false(lines, name, fnmap):
+    """Put `ensures false,` in front of the first ensures clause of `name`.
+    - an EXTRACTED function (key of fnmap, e.g. `Type::method`) is searched only inside its own emitted line range;
+    - anything else (spec lemma, raw witness) is found by `fn NAME` and must match exactly once in the file.
+    A target that is `#[verifier::external_body]` is refused: Verus does not check the ensures of a trusted function, the
+    canary would be meaningless (and `ensures false` on a trusted function would make its callers vacuous)."""
+    short = name.split("::")[-1]
+    pat = re.compile(r"\bfn\s+%s\s*[<(]" % re.escape(short))
+    ranges = [(s_, e_) for (s_, e_, fk) in fnmap if fk == name]
+    if ranges:
+        cands = [k for (s_, e_) in ranges for k in range(s_ - 1, e_) if pat.search(lines[k])]
+        cands = cands[:1]          # the signature line is the first match inside the function's own range
+    else:
+        cands = [k for k, l in enumerate(lines) if pat.search(l) and not l.strip().startswith("//")]
+    if len(cands) != 1:
+        raise BuildError("canary target %s: %d candidate definitions (need exactly one)" % (name, len(cands)))
+    k = cands[0]
+    if any("external_body" in lines[q] for q in range(max(0, k - 3), k)):
+        raise BuildError("canary target %s is external_body (trusted): its ensures is never checked" % name)
+    for j_ in range(k, min(k + 120, len(lines))):
+        st = lines[j_].strip()
+        if re.match(r"ensures\b", st):
+            lines[j_] = re.sub(r"ensures\b", "ensures false,", lines[j_], count=1)
+            return True
+        if j_ > k and (st == "{" or st.startswith("{")):
+            break
+    return False
+
+
+def build(unit_path, out_dir, canary=False, repo=None):
+    # resolved at CALL time: the caller (check, selftest) may point VERIF_REPO at a scratch copy of the sources
+    repo = repo or os.environ.get("VERIF_REPO", "/repo")
     u = parse_unit(unit_path)
     em = Emitter()
     report = []
@@ -788,19 +926,12 @@ def build(unit_path, out_dir, canary=False, repo=REPO):
     suffix = "_canary" if canary else ""
     lines = em.lines
     if canary:
-        if not u.canary:
+        target = canary if isinstance(canary, str) else u.canary
+        if not target:
             raise BuildError("unit %s has no canary function" % u.name)
         # inject `ensures false` as the first clause of the canary function's contract
-        done = False
-        for (s, e, fk) in em.fnmap:
-            if fk == u.canary:
-                for ln in range(s, e + 1):
-                    if re.match(r"\s*ensures\b", lines[ln - 1]):
-                        lines[ln - 1] = re.sub(r"ensures\b", "ensures false,", lines[ln - 1], count=1)
-                        done = True
-                        break
-        if not done:
-            raise BuildError("canary injection failed for %s" % u.canary)
+        if not _inject_false(lines, target, em.fnmap):
+            raise BuildError("canary injection failed for %s" % target)
     rs = os.path.join(out_dir, u.name + suffix + ".rs")
     with open(rs, "w") as f:
         f.write("\n".join(lines) + "\n")
@@ -813,6 +944,7 @@ def build(unit_path, out_dir, canary=False, repo=REPO):
     m = dict(unit=u.name, rs=rs, linemap={str(k): v for k, v in em.linemap.items()}, fnmap=em.fnmap,
              extraction=extraction, labels=u.labels,
              fnprops={k: c["props"] for k, c in u.contracts.items()}, canary=u.canary,
+             canaries=getattr(u, "canaries", []),
              prelude=u.prelude, specs=u.specs, contracts=sorted(u.contracts.keys()),
              loops=sorted("%s#%d" % k for k in u.loops.keys()))
     with open(os.path.join(out_dir, u.name + suffix + ".map.json"), "w") as f:
